@@ -55,6 +55,8 @@ def check(chk, fx):
     deporder.group(chk, fx, "DEPORD", "dependence order of statements (driver: shift / reduce / stacks)", _gr.DEP_GROUPS["DRV"])
     from .. import ownrules
     ownrules.fcopy(chk, fx, 100)      # "each rule's functor is called": the stored object, not a copy of it
+    from .. import cexrules
+    cexrules.buf(chk, fx)             # the three buffer classes: begin / end / get_view mean the same slice
     lr.all_table_rules(chk, fx)
     tix.report(chk, fx)
     idxrule.report(chk, fx, lambda q: q.startswith(P) or q.startswith("ctpg::detail::value_reductors"),
@@ -320,3 +322,8 @@ def result(chk, fx):
         chk.ok("RESULT", A.site(f), "success returns the root value at the bottom of the value stack")
     else:
         chk.violation("RESULT", A.site(f), "RESULT:success", "success returns %s" % rets)
+
+
+def pre(chk):
+    from . import c19
+    c19.hlp_t(chk, ("clang++",))
